@@ -176,7 +176,7 @@ class C13Executor(SymListMixin, ET.ETreeMixin, Executor):
             # `yield from <sequence>`: every element of the sequence, in order
             mapped = VSeq(src.length, lambda i, src=src, st=st: yield_key(st, src.elem(i)), "C13Table")
             n0 = z3.simplify(cur.length)
-            st.ghost[YSEQ] = mapped if z3.is_int_value(n0) and n0.as_long() == 0 else concat(cur, mapped)
+            st.ghost[YSEQ] = cat(cur, mapped)
             return None
         if cur is not None:
             raise_unsupported(f"{self.loc(node)} yield from a generator of unknown length (iterate_tables contract)")
@@ -829,19 +829,18 @@ def value_contracts(reg):
 # ============================================================ iterate_tables (round 7) ==
 YSEQ = "c13!yielded"
 TABLE = ext_sort("C13Table")                                  # a stored table (grid or sheet object) of a content object
-UNITS = ext_sort("C13Unit")                                   # a unit (slide, page, chapter) that stores tables
 N_STORED = z3.Int("n_stored_tables")
 STORED = z3.Function("stored_table", I, TABLE)
-N_UNITS = z3.Int("n_units")
-UNIT_AT = z3.Function("stored_unit", I, UNITS)
-U_NT = z3.Function("unit_ntables", UNITS, I)
-U_T = z3.Function("unit_table", UNITS, I, TABLE)
-NOT_A_TABLE = z3.Const("yielded_something_else", TABLE)
 
 
 def raise_unsupported(msg):
     from pyvc.symex import Unsupported
     raise Unsupported(msg)
+
+
+def cat(a: VSeq, b: VSeq):
+    n = z3.simplify(a.length)
+    return b if z3.is_int_value(n) and n.as_long() == 0 else concat(a, b)
 
 
 def seq_append(s: VSeq, x):
@@ -879,7 +878,10 @@ def iterate_tables_contracts(reg):
         cls = q.split(".")[0]
         fors = sorted([n for n in ast.walk(fnode) if isinstance(n, (ast.For, ast.While))], key=lambda n: (n.lineno, n.col_offset))
         if len(fors) > 1:
-            continue            # units with tables (nested loops): bounded walker w_iter only
+            # units with tables (pptx / odp / pdf / epub: nested loops) stay with the bounded walker w_iter.  A contract over the flattened
+            # sequence (prefix sums OFF(i+1) = OFF(i) + ntables(unit i) as a quantified definition) proves in milliseconds, but a broken
+            # body then costs 4 x 60 s of solver time-outs (sat direction of the quantified definition): not worth it in the quick tier.
+            continue
         flds = sorted({n.attr for n in ast.walk(fnode) if isinstance(n, ast.Attribute) and isinstance(n.value, ast.Name) and n.value.id == "self"
                        and _field_is_grid_list(m, cls, n.attr) is not None})
         if len(flds) != 1:
@@ -1959,6 +1961,8 @@ ASSUMED_MODELS = ["xml.etree.ElementTree.Element (contracts/etree_model.py): tag
                   "evaluated by the real library; bisect_left/right on an ascending list = partition point",
                   "text renderers _format_sheet_as_text / _format_table_as_text, ods _extract_annotations / _extract_images (not part of the grid)"]
 ASSUMPTIONS = ["PY-COMP: a comprehension / generator expression with a total effect-free element over a sequence is the element-wise image",
+               "PY-GEN-SEQ: the values a generator yields, in order, are what a consumer of iterate_tables() receives (ghost sequence c13!yielded; "
+               "`yield from seq` yields every element of seq in order); a fresh TableData(data=g) stands for the stored grid g",
                "PY-ANY: any(it) / all(it) over a sequence of bools = exists / for all elements; range(a, b, -1) = a, a-1, .., b+1; bool(v) of an abstract cell value "
                "is an unconstrained predicate (independent of the cell being empty: 0 / False are data, ' ' is not)",
                "PY-MAX: max(it, default=d) is d for an empty iterable, else an upper bound that is attained",
@@ -1976,7 +1980,8 @@ BOUNDED = ["walkers docx _extract_tables_from_context, odt _extract_tables, odp 
            "sheet builders xlsx _read_content_from_workbook(+_read_sheet_data,_is_table_name_row; its callees _is_cell_non_empty, _is_meaningful_value, "
            "_find_last_data_row, _find_last_data_column are ALSO under a discharged symbolic contract since round 7), xls _read_content + XlsSheet.get_table, ods _extract_sheet: sheets of 1..3 rows x 1..2 columns "
            "over the cell kinds empty/text/int/float/bool/date, duplicate and empty first-row names; values symbolic (xls/xlsx first-row names and ods typed literals concrete)",
-           "iterate_tables of every content class: 0..3 stored tables on 0..3 units",
+           "iterate_tables of every content class: 0..3 stored tables on 0..3 units (since round 7 the classes that store their tables in one list -- doc, docx, html, "
+           "odt, rtf, xls, xlsx, ods -- are ALSO under a discharged contract for any number of tables; the unit-structured ones pptx / odp / pdf / epub only here)",
            "rtf _RtfParser._extract_tables (+ _extract_table_cells, _save_table, _strip_rtf_simple, _remove_ignorable_groups): concrete RTF sources -- rectangular tables "
            "up to 3 x 2, empty / two-paragraph cells, two tables separated by running text, rows newline-separated or back to back (quick: 2 layouts, thorough: 4)",
            "html / epub documents are fed as parser events through the real handlers (_HtmlTreeBuilder, _XhtmlTextExtractor), including empty cells in self-closed form"]
